@@ -1,6 +1,7 @@
 package main
 
 import (
+	"strconv"
 	"os"
 	"bufio"
 	"fmt"
@@ -14,6 +15,13 @@ type solverLost struct{ msg string }
 
 type Solver struct {
 	closed   bool
+	dead     bool     // the process was killed by the watchdog: queries go to the fallback until the stack is empty again
+	bin      string
+	args     []string
+	opts     []string // options sent at start-up (re-sent on restart)
+	curMs    int      // per-query limit currently in force
+	lines    chan string
+	Watchdog int      // queries cut off by the watchdog (the back end ignored its own time limit)
 	baseMs   int
 	name     string
 	fallback *Solver
@@ -35,20 +43,50 @@ type Solver struct {
 }
 
 func NewSolver(bin string, args ...string) *Solver {
-	cmd := exec.Command(bin, args...)
+	s := &Solver{bin: bin, args: args}
+	s.start()
+	return s
+}
+
+func (s *Solver) start() {
+	cmd := exec.Command(s.bin, s.args...)
 	in, _ := cmd.StdinPipe()
 	outp, _ := cmd.StdoutPipe()
 	cmd.Stderr = cmd.Stdout
 	if err := cmd.Start(); err != nil {
 		panic(err)
 	}
-	s := &Solver{cmd: cmd, in: in, out: bufio.NewReader(outp), defined: map[int]bool{}}
+	s.cmd, s.in, s.defined, s.dead = cmd, in, map[int]bool{}, false
+	lines := make(chan string, 64)
+	s.lines = lines
+	go func() {
+		rd := bufio.NewReader(outp)
+		for {
+			l, err := rd.ReadString('\n')
+			if err != nil {
+				close(lines)
+				return
+			}
+			lines <- strings.TrimSpace(l)
+		}
+	}()
 	s.send("(set-option :global-declarations true)")
 	s.send("(set-option :produce-models true)")
-	return s
+	for _, o := range s.opts {
+		s.send(o)
+	}
+}
+
+// option sends an option now and after every restart.
+func (s *Solver) option(o string) {
+	s.opts = append(s.opts, o)
+	s.send(o)
 }
 
 func (s *Solver) send(l string) {
+	if s.dead {
+		return
+	}
 	if s.log != nil {
 		fmt.Fprintln(s.log, l)
 	}
@@ -56,16 +94,29 @@ func (s *Solver) send(l string) {
 }
 
 func (s *Solver) readLine() string {
-	l, err := s.out.ReadString('\n')
-	if err != nil {
-		panic("solver died: " + err.Error())
+	l, ok := <-s.lines
+	if !ok {
+		panic("solver died")
 	}
-	return strings.TrimSpace(l)
+	return l
+}
+
+// readLineWithin waits at most d for the next line (false: nothing came).
+func (s *Solver) readLineWithin(d time.Duration) (string, bool) {
+	select {
+	case l, ok := <-s.lines:
+		if !ok {
+			panic("solver died")
+		}
+		return l, true
+	case <-time.After(d):
+		return "", false
+	}
 }
 
 // define makes sure t and all its sub-terms are known to the solver.
 func (s *Solver) define(t *Term) {
-	if t.Op == "const" || s.defined[t.id] {
+	if s.dead || t.Op == "const" || s.defined[t.id] {
 		return
 	}
 	for _, a := range t.Args {
@@ -93,6 +144,13 @@ func (s *Solver) PopAll() {
 	if s.fallback != nil {
 		s.fallback.PopAll()
 	}
+	if s.dead {
+		// the stack is empty again: a fresh process takes over
+		s.depth = 0
+		s.start()
+		s.setTimeout(s.baseMs)
+		return
+	}
 	if s.depth > 0 {
 		s.send(fmt.Sprintf("(pop %d)", s.depth))
 		s.depth = 0
@@ -103,19 +161,46 @@ func (s *Solver) PopAll() {
 // Returns "sat", "unsat" or "unknown".
 func (s *Solver) Check(extra *Term) string {
 	t0 := time.Now()
-	s.define(extra)
-	s.send("(push 1)")
-	s.send("(assert " + extra.ref() + ")")
-	s.send("(check-sat)")
-	r := s.readLine()
-	for r != "sat" && r != "unsat" && r != "unknown" {
-		if strings.HasPrefix(r, "(error") {
-			if strings.Contains(r, "canceled") || strings.Contains(r, "interrupted") {
-				panic(solverLost{r}) // the back end gave up in the middle of a command: the worker restarts it and redoes the path
-			}
-			panic("solver error: " + r)
+	r := "unknown"
+	if !s.dead {
+		s.define(extra)
+		s.send("(push 1)")
+		s.send("(assert " + extra.ref() + ")")
+		s.send("(check-sat)")
+		// watchdog: a back end that ignores its own limit (z3 inside preprocessing) is killed; the answer is unknown
+		ms := s.curMs
+		if ms <= 0 {
+			ms = s.baseMs
 		}
-		r = s.readLine()
+		hard := time.Duration(3*ms)*time.Millisecond + 10*time.Second
+		if v, err := strconv.Atoi(os.Getenv("GOSX_HARD_MS")); err == nil && v > 0 {
+			hard = time.Duration(v) * time.Millisecond // (test hook for the watchdog itself)
+		}
+		for {
+			l, ok := s.readLineWithin(hard)
+			if !ok {
+				s.Watchdog++
+				s.in.Close()
+				s.cmd.Process.Kill()
+				s.cmd.Wait()
+				if s.fallback == nil {
+					panic(solverLost{"watchdog: no answer from " + s.name})
+				}
+				s.dead = true
+				r = "unknown"
+				break
+			}
+			if l == "sat" || l == "unsat" || l == "unknown" {
+				r = l
+				break
+			}
+			if strings.HasPrefix(l, "(error") {
+				if strings.Contains(l, "canceled") || strings.Contains(l, "interrupted") {
+					panic(solverLost{l}) // the back end gave up in the middle of a command: the worker restarts it and redoes the path
+				}
+				panic("solver error: " + l)
+			}
+		}
 	}
 	if r == "unknown" && s.fallback != nil {
 		s.Fallbacks++
@@ -147,6 +232,7 @@ func (s *Solver) Check(extra *Term) string {
 
 // setTimeout changes the per-query limit of this back end (and not of its fallback).
 func (s *Solver) setTimeout(ms int) {
+	s.curMs = ms
 	if strings.HasPrefix(s.name, "z3") {
 		s.send(fmt.Sprintf("(set-option :timeout %d)", ms))
 	} else {
@@ -201,6 +287,9 @@ func (s *Solver) Kill() {
 		s.fallback.Kill()
 	}
 	s.closed = true
+	if s.dead {
+		return
+	}
 	s.in.Close()
 	s.cmd.Process.Kill()
 	s.cmd.Wait()
@@ -212,6 +301,9 @@ func (s *Solver) Close() {
 	}
 	if s.fallback != nil {
 		s.fallback.Close()
+	}
+	if s.dead {
+		return
 	}
 	s.send("(exit)")
 	s.in.Close()
@@ -231,14 +323,16 @@ func newSolverPair(profile, tier string, seed int64) *Solver {
 		s := NewSolver("z3", "-in")
 		s.name = "z3"
 		s.baseMs = ms
+		s.curMs = ms
 		s.send(fmt.Sprintf("(set-option :timeout %d)", ms))
-		s.send(fmt.Sprintf("(set-option :random-seed %d)", seed%1000000))
+		s.option(fmt.Sprintf("(set-option :random-seed %d)", seed%1000000))
 		return s
 	}
 	mkCVC := func(ms int) *Solver {
 		s := NewSolver("cvc5", "--incremental", "--lang=smt2", "--solve-bv-as-int=sum", fmt.Sprintf("--tlimit-per=%d", ms), fmt.Sprintf("--seed=%d", seed%1000000))
 		s.name = "cvc5(bv-as-int)"
 		s.baseMs = ms
+		s.curMs = ms
 		return s
 	}
 	if profile == "arith" {
